@@ -44,6 +44,8 @@ var goModels = map[string]string{
 	"(*sync.Map).Swap":                   "ModelSyncMapSwap",
 	"(*sync.Map).Range":                  "ModelSyncMapRange",
 	"(*sync.Map).Clear":                  "ModelSyncMapClear",
+	"(*sync.Map).CompareAndDelete":       "ModelSyncMapCompareAndDelete",
+	"(*sync.Map).CompareAndSwap":         "ModelSyncMapCompareAndSwap",
 	"(*sync.Pool).Get":                   "ModelPoolGet",
 	"(*sync.Pool).Put":                   "ModelPoolPut",
 	"crypto/subtle.ConstantTimeCompare":  "ModelConstantTimeCompare",
